@@ -75,6 +75,49 @@ func (g *GraffitiProviderSpec) build(ctx context.Context) (graffitiprovider.Serv
 type UnblindSpec struct {
 	CanUnblind bool   `json:"can_unblind"`
 	Script     string `json:"script"` // ok | err400 | err
+	// Latency of the relay's answer, relative to the deadline of the context Propose is called
+	// with: now | barrier (all barrier relays of the case answer together) | just-after (the
+	// answer completes shortly after the deadline, as a response that was already in flight
+	// does) | long-after.
+	Latency string `json:"latency,omitempty"`
+}
+
+const (
+	justAfterDeadline = 15 * time.Millisecond
+	longAfterDeadline = 120 * time.Millisecond
+	barrierPatience   = 25 * time.Millisecond
+)
+
+// barrier releases all its waiters together once the expected number has arrived (or when the
+// first one has waited for barrierPatience).
+type barrier struct {
+	mu       sync.Mutex
+	expected int
+	arrived  int
+	release  chan struct{}
+	timer    *time.Timer
+	open     bool
+}
+
+func newBarrier(expected int) *barrier { return &barrier{expected: expected, release: make(chan struct{})} }
+
+func (b *barrier) openLocked() {
+	if !b.open {
+		b.open = true
+		close(b.release)
+	}
+}
+
+func (b *barrier) wait() {
+	b.mu.Lock()
+	b.arrived++
+	if b.arrived >= b.expected {
+		b.openLocked()
+	} else if b.timer == nil {
+		b.timer = time.AfterFunc(barrierPatience, func() { b.mu.Lock(); b.openLocked(); b.mu.Unlock() })
+	}
+	b.mu.Unlock()
+	<-b.release
 }
 
 // AuctionSpec scripts the block auctioneer as blockrelay/standard can behave:
@@ -103,10 +146,13 @@ type ProposeCase struct {
 
 // relayDouble is a relay as the auctioneer hands it to the proposer.
 type relayDouble struct {
-	name   string
-	spec   UnblindSpec
-	calls  atomic.Int64
-	params BlockParams
+	name     string
+	spec     UnblindSpec
+	calls    atomic.Int64
+	inflight atomic.Int64
+	late     atomic.Int64 // answers completed after the context was done
+	params   BlockParams
+	barrier  *barrier
 }
 
 func (r *relayDouble) Name() string              { return r.name }
@@ -121,10 +167,29 @@ func (r *relayDouble) BuilderBid(context.Context, *builderapi.BuilderBidOpts) (*
 // Data holds the unblinded block of the request's version.
 type relayUnblinder struct{ relayDouble }
 
-func (r *relayUnblinder) UnblindProposal(_ context.Context, opts *builderapi.UnblindProposalOpts) (*builderapi.Response[*api.VersionedSignedProposal], error) {
+func (r *relayUnblinder) UnblindProposal(ctx context.Context, opts *builderapi.UnblindProposalOpts) (*builderapi.Response[*api.VersionedSignedProposal], error) {
 	r.calls.Add(1)
+	r.inflight.Add(1)
+	defer r.inflight.Add(-1)
 	if opts == nil || opts.Proposal == nil {
 		return nil, errors.New("no proposal specified")
+	}
+	switch r.spec.Latency {
+	case "barrier":
+		if r.barrier != nil {
+			r.barrier.wait()
+		}
+	case "just-after", "long-after":
+		if deadline, ok := ctx.Deadline(); ok {
+			d := justAfterDeadline
+			if r.spec.Latency == "long-after" {
+				d = longAfterDeadline
+			}
+			time.Sleep(time.Until(deadline.Add(d)))
+		}
+	}
+	if ctx.Err() != nil {
+		r.late.Add(1)
 	}
 	switch r.spec.Script {
 	case "err400":
@@ -331,8 +396,15 @@ func runPropose(c *ProposeCase, out *outcome) {
 	var auctioneer *auctioneerDouble
 	if c.Auction.Mode != "none" {
 		auctioneer = &auctioneerDouble{spec: &c.Auction}
+		nBarrier := 0
+		for _, r := range c.Auction.Relays {
+			if r.CanUnblind && r.Latency == "barrier" {
+				nBarrier++
+			}
+		}
+		relayBarrier := newBarrier(nBarrier)
 		for i, r := range c.Auction.Relays {
-			rd := relayDouble{name: fmt.Sprintf("http://relay%d.invalid", i), spec: r,
+			rd := relayDouble{name: fmt.Sprintf("http://relay%d.invalid", i), spec: r, barrier: relayBarrier,
 				params: BlockParams{Slot: c.Slot, ProposerIndex: c.ValidatorIndex, Randao: c.Randao, FeeRecipient: 0x11, PayloadState: 0x52}}
 			if r.CanUnblind {
 				u := &relayUnblinder{rd}
@@ -363,21 +435,51 @@ func runPropose(c *ProposeCase, out *outcome) {
 	out.addPanic(guard(func() { svc.Propose(pctx, duty) }))
 
 	// Unblinding runs on goroutines the proposer starts itself and that outlive Propose: a relay
-	// that keeps failing is retried three times, 250 ms apart, before the goroutine looks at the
-	// (missing) response.  Wait for that, so that whatever happens there happens within this case.
+	// may answer after Propose has given up or has taken another relay's block, and a relay that
+	// keeps failing is retried three times, 250 ms apart, before the goroutine looks at the
+	// (missing) response.  Wait for all of that, so that whatever happens on those goroutines
+	// happens within this case (and the supervisor attributes a crash to it).
 	if auctioneer != nil {
-		settle := false
+		retries, requested, late := false, false, false
 		for _, d := range auctioneer.doubles {
-			if d.spec.Script == "err" && d.calls.Load() > 0 {
+			if d.calls.Load() == 0 {
+				continue
+			}
+			requested = true
+			if d.spec.Script == "err" {
 				for end := time.Now().Add(3 * time.Second); d.calls.Load() < 3 && time.Now().Before(end); {
 					time.Sleep(5 * time.Millisecond)
 				}
-				settle = true
+				retries = true
 			}
 		}
-		if settle {
+		for _, d := range auctioneer.doubles {
+			for end := time.Now().Add(3 * time.Second); d.inflight.Load() > 0 && time.Now().Before(end); {
+				time.Sleep(2 * time.Millisecond)
+			}
+			if d.late.Load() > 0 {
+				late = true
+			}
+		}
+		if retries {
 			time.Sleep(270 * time.Millisecond)
 			out.label("propose:unblind-retries-exhausted")
+		}
+		if requested {
+			// let the goroutines hand over (or drop) the answers they have just received
+			time.Sleep(8 * time.Millisecond)
+		}
+		if late {
+			out.label("propose:relay-answered-after-context-deadline")
+		}
+		together := 0
+		for _, d := range auctioneer.doubles {
+			if d.spec.Latency == "barrier" && d.spec.Script == "ok" && d.calls.Load() > 0 {
+				together++
+			}
+		}
+		if together >= 2 {
+			out.label("propose:relays-answered-together")
 		}
 	}
 
@@ -477,14 +579,31 @@ func genProposeCase(t *rapid.T) Case {
 	}
 	c.Auction.Mode = rapid.SampledFrom([]string{"none", "none", "error", "empty", "providers", "providers", "providers"}).Draw(t, "auctionMode")
 	if c.Auction.Mode == "providers" {
-		nr := rapid.IntRange(0, 3).Draw(t, "nRelays")
+		nr := rapid.SampledFrom([]int{0, 1, 2, 2, 3, 3}).Draw(t, "nRelays")
 		for i := 0; i < nr; i++ {
 			c.Auction.Relays = append(c.Auction.Relays, UnblindSpec{
 				CanUnblind: rapid.IntRange(0, 5).Draw(t, "canUnblind") > 0,
 				Script:     rapid.SampledFrom([]string{"ok", "ok", "ok", "ok", "ok", "ok", "err400", "err400", "err"}).Draw(t, "unblindScript"),
+				Latency:    rapid.SampledFrom([]string{"now", "now", "now", "barrier", "barrier", "barrier", "barrier", "just-after", "just-after", "long-after"}).Draw(t, "unblindLatency"),
 			})
 		}
 		c.Auction.NWinners = rapid.IntRange(0, nr).Draw(t, "nWinners")
+		if nr > 1 && rapid.Bool().Draw(t, "allWin") {
+			c.Auction.NWinners = nr // several relays offering the winning bid is the normal case
+		}
+	}
+	if c.Auction.Mode == "providers" && len(c.Auction.Relays) > 0 && rapid.Bool().Draw(t, "cleanBlinded") {
+		// Make the unblinding stage (relay timing, retries, several relays) reachable often: every
+		// node offers a well-formed blinded proposal of a version that has blinded blocks.
+		v := rapid.SampledFrom([]string{"bellatrix", "capella", "deneb"}).Draw(t, "cleanBlindedVersion")
+		for i := range c.Nodes {
+			p := &c.Nodes[i].Proposal
+			p.Outcome, p.Version, p.Blinded, p.Envelope, p.Muts, p.SlotDelta, p.WrongRandao = "ok", v, true, "data", nil, 0, false
+			p.ConsensusValue, p.ExecutionValue = "1", "2"
+			if p.Params.FeeRecipient == 0 {
+				p.Params.FeeRecipient = 0x11
+			}
+		}
 	}
 	return Case{Target: "propose", Propose: c}
 }
